@@ -312,6 +312,9 @@ func (w *World) Anchors() *Anchors {
 		return fn
 	}
 	a.ClientReasmEntry, a.ServerReasmEntry = climbSame(a.ClientReasm), climbSame(a.ServerReasm)
+	// the receive loops: when the frame loop was split off the goroutine's function (recvLoop -> dispatchFrames), the
+	// anchor is the function the loop belongs to (prologue, loop and exits are judged together)
+	a.ClientLoop, a.ServerLoop = climbSame(a.ClientLoop), climbSame(a.ServerLoop)
 	a.ClientFinish, a.ServerHalf = climbSame(a.ClientFinish), climbSame(a.ServerHalf)
 	// accept anchors, refined top-down: the first method of the stream type on the call path from the receive loop to the
 	// receiver's accept call (the frame switch may have been split into per-frame methods, the loop body into a helper)
